@@ -1,7 +1,7 @@
 """C15 — merging parts keeps every note at the same musical time in disjoint voices."""
 import ast
 
-from ..core.program import norm, own_nodes
+from ..core.program import pos, norm, own_nodes
 from ..core.world import world
 from ..rules import generic as G
 from ..rules import timeline as TL
@@ -198,11 +198,11 @@ def run(ctx):
     ctx.check(len(single) == 1, "SINGLE", "single-part shortcut", func=f, construct="single:shortcut", msg="the single-part shortcut was not found")
     if single:
         dom = cfg.dominators(include_exc=False)
-        first_effect = min((n.lineno for n in cfg.nodes if n.ast is not None and any(
+        first_effect = min((pos(n.ast) for n in cfg.nodes if n.ast is not None and any(
             (isinstance(x, ast.Attribute) and isinstance(x.ctx, ast.Store)) or (isinstance(x, ast.Call) and norm(x.func) in ("Part", f"{mp}.add"))
             for x in ast.walk(n.ast) if not isinstance(x, ast.Raise))), default=10 ** 9)
         ret_ok = any(isinstance(m.ast, ast.Return) and norm(m.ast.value) == "parts[0]" for m, l in single[0].succ if l == "T" and m.ast is not None)
-        ctx.check(ret_ok and single[0].lineno < first_effect, "SINGLE", "returned as is, before any effect", func=f, construct="single:order",
+        ctx.check(ret_ok and pos(single[0].ast) < first_effect, "SINGLE", "returned as is, before any effect", func=f, construct="single:order",
                   msg="a single part must be returned as is before the merged part is built or any element is modified")
     # ---- iter_parts
     ctx.rule("F6-flat", "iter_parts: no isinstance branch is subsumed by an earlier one; a Score is flattened through .parts, groups through .children")
